@@ -36,7 +36,8 @@ import Pog.Lemmas.ConvSerTerm
         — on an ACYCLIC heap (some rank strictly decreases along every reference) it does terminate, whatever the
           types, the declarations and the registry                                                            (partial)
     serializer_json_safe     : the result is JSON-serialisable                                                         ✗
-        — a `UUID` / `time` value is passed through unchanged                                               (counterexample)
+        — (F10 repaired: a `UUID` / `time` value now has an unstructure hook and is written as a string:
+          `serializer_json_safe_former_witness`)
         — a dict holding a model with a forward-referenced child list: the children stay live instances     (counterexample)
     serializer_registry_dependent : (not part of the statement, found on the way) the keys of a dataclass reached through
           a dict depend on whether its hook happens to be registered already: python names vs wire names (counterexample)
@@ -286,16 +287,18 @@ theorem serializer_any_cycle_counterexample (c : Codecs) (reg : List Str) (fuel 
     serialize c fuel anySelf anyDecls reg (.ref 0) = .error .fuel :=
   serialize_anySelf_diverges c reg fuel
 
-/-- ✗ JSON safety.  `class U: u: UUID` — there is no unstructure hook for `UUID` (C03): the object is passed
-    through, the result is not accepted by `json.dumps`. -/
-theorem serializer_json_safe_counterexample :
+/-- The former first witness against JSON safety (F10, repaired).  `class U: u: UUID` — the converter used to have no
+    unstructure hook for `UUID` (C03): the object was passed through and `json.dumps` rejected the result.  With the hook
+    the value is written as its canonical string and the result is JSON. -/
+theorem serializer_json_safe_former_witness :
     ∃ out reg', serialize Codecs.exec 5
-        [(0, .inst "U".toList [("u".toList, .opaque "uuid".toList "123e4567-e89b-12d3-a456-426614174000".toList)])]
+        [(0, .inst "U".toList [("u".toList, .uuid "123e4567-e89b-12d3-a456-426614174000".toList)])]
         [("U".toList, { fields := [⟨"u".toList, .leaf .uuid, .required⟩], loadMap := none, dumpMap := none })] []
-        (.ref 0) = .ok (out, reg') ∧ out.toJson? = none :=
+        (.ref 0) = .ok (out, reg')
+      ∧ out.toJson? = some (.obj [("u".toList, .str "123e4567-e89b-12d3-a456-426614174000".toList)]) :=
   ⟨_, _, rfl, rfl⟩
 
-/-- ✗ JSON safety, second witness — no cycle, no exotic leaf: `class Node: name: str; children: List["Node"]` (a self
+/-- ✗ JSON safety — no cycle, no exotic leaf: `class Node: name: str; children: List["Node"]` (a self
     reference as the generator writes it) held by a DICT.  The dict takes the "everything else" branch: cattrs passes
     the children through (unresolved forward reference) and `_ensure_all_dicts` is NOT applied on that branch: the
     result contains a live `Node` instance.  (`serialize(node)` and `serialize([node])` are fine.) -/
